@@ -363,6 +363,40 @@ theorem handles_disjoint (ops : List Op) (i j : Nat) (hij : i ≠ j) (d e : Nat)
       have h2 : x ∈ addrs sj.chain := by rw [hcj, addrs_append]; exact List.mem_append_right _ hxj
       exact hij (hr.slots_disjoint hsli hslj h1 h2)
 
+/-- move construction: the new object is fresh storage with the source's fields, it takes over the source's inner
+    layers *themselves* (same identities, nothing copied), and the source is left as a single moved-from layer -/
+theorem move_transfers (ops : List Op) (i : Nat) (r : Ref) (s' : State)
+    (h : step (run {} ops) (.movector i r) = some s') :
+    let s := run {} ops
+    ∃ x post, s.chainAt r = x :: post ∧
+      s'.chainAt ⟨i, 0⟩ = (s.heap.cells.length, x.2) :: post ∧
+      s'.chainAt r = [(x.1, x.2.moved)] := by
+  intro s
+  have hr := model_refines_spec ops
+  obtain ⟨A', hA, hr'⟩ := step_rep hr h
+  rw [hr'.chainAt, hr'.chainAt, hr.chainAt]
+  simp only [AState.step] at hA
+  split at hA
+  · next he =>
+    split at hA
+    · next sl x post hsl hs =>
+      cases hA
+      obtain ⟨sl', hsl', hdrop, _, _⟩ := sub_spec hs
+      rw [hsl] at hsl'; cases hsl'
+      obtain ⟨hi, _⟩ := isEmpty_spec he
+      obtain ⟨hj, ej⟩ := slot?_some hsl
+      have hri : r.slot ≠ i := ne_of_empty_of_slot he hsl
+      refine ⟨x, post, by rw [hs]; rfl, ?_, ?_⟩
+      · rw [← hr.next]
+        simp [AState.sub, AState.slot?, AState.setSlot, AState.bump, AState.setChain_slots hsl, hi]
+      · have h1 : ((((AState.run {} ops).setChain r.slot (AState.splice sl.chain r.depth (x.1, x.2.moved) [])).setSlot i
+            (some ⟨.pdu, ((AState.run {} ops).next, x.2) :: post⟩)).bump 1).slot? r.slot =
+            some { sl with chain := AState.splice sl.chain r.depth (x.1, x.2.moved) [] } := by
+          simp [AState.slot?, AState.setSlot, AState.bump, AState.setChain_slots hsl, List.getElem?_set, Ne.symm hri, hri, hj]
+        simp only [AState.sub, h1, drop_splice hdrop, Option.getD_some]
+    · cases hA
+  · cases hA
+
 /-! ### the defect of the pinned tree, at model level -/
 
 def demoHeap : Heap :=
